@@ -252,7 +252,7 @@ def run(tier: str, replay: str | None = None):
         cases = [json.loads(Path(replay).read_text())["input"]]
     else:
         cases = list(load_corpus())
-        n = 6000 if tier == "quick" else 30000
+        n = 5000 if tier == "quick" else 30000
         for _ in range(n):
             any_ok = rng.random() < 0.2
             dep = 4 if rng.random() < 0.25 else 3
